@@ -74,6 +74,53 @@ impl core::ops::Deref for Ty { type Target = u8; fn deref(&self) -> &u8 { &self.
 #[cfg_attr(kani, kani::proof)]
 pub fn h() { let mut x = Ty(kani::any(), kani::any()); let a = x.0; let v: u8 = kani::any(); *x = v; kani::cover!(true, "reached"); assert!(x.1 == v && x.0 == a); }
 '''))
+    # explicit bound modes on each trait whose handler has a paired cfg(feature = partner) / cfg(not(..)) site: the partner being compiled
+    # out must not change what the trait's own attribute accepts or emits
+    G.append(special('Eq(bound(T: Eq)) next to a hand-written PartialEq', {'Eq'}, '''#[derive(Educe)]
+#[educe(Eq(bound(T: ::core::cmp::Eq)))]
+pub struct Ty<T>(pub T);
+impl<T: PartialEq> PartialEq for Ty<T> { fn eq(&self, o: &Self) -> bool { self.0 == o.0 } }
+fn req<T: Eq>(_t: &T) {}
+#[cfg_attr(kani, kani::proof)]
+pub fn h() { let x = Ty::<u8>(kani::any()); req(&x); kani::cover!(true, "reached"); assert!(x == Ty(x.0)); }
+'''))
+    G.append(special('Eq(bound = false) on an enum next to a hand-written PartialEq', {'Eq'}, '''#[derive(Educe)]
+#[educe(Eq(bound = false))]
+pub enum Ty<T> { A(T), B }
+impl<T> PartialEq for Ty<T> { fn eq(&self, o: &Self) -> bool { matches!((self, o), (Ty::B, Ty::B)) } }
+fn req<T: Eq>(_t: &T) {}
+#[cfg_attr(kani, kani::proof)]
+pub fn h() { let x = Ty::<f32>::B; req(&x); kani::cover!(true, "reached"); assert!(x == Ty::B); }
+'''))
+    G.append(special('Copy(bound(T: Copy)) next to a hand-written Clone', {'Copy'}, '''#[derive(Educe)]
+#[educe(Copy(bound(T: ::core::marker::Copy)))]
+pub struct Ty<T>(pub T, pub u16);
+impl<T: Copy> Clone for Ty<T> { fn clone(&self) -> Self { Ty(self.0, self.1) } }
+#[cfg_attr(kani, kani::proof)]
+pub fn h() { let x = Ty::<u8>(kani::any(), kani::any()); let p = x; let q = x; kani::cover!(true, "reached"); assert!(p.0 == q.0 && p.1 == q.1); }
+'''))
+    G.append(special('Clone(bound(T: Clone)) without Copy', {'Clone'}, '''#[derive(Educe)]
+#[educe(Clone(bound(T: ::core::clone::Clone)))]
+pub struct Ty<T>(pub T, pub u16);
+#[cfg_attr(kani, kani::proof)]
+pub fn h() { let x = Ty::<u8>(kani::any(), kani::any()); let y = x.clone(); kani::cover!(true, "reached"); assert!(x.0 == y.0 && x.1 == y.1); }
+'''))
+    G.append(special('PartialOrd(bound(T: PartialOrd)) next to a hand-written PartialEq', {'PartialOrd'}, '''#[derive(Educe)]
+#[educe(PartialOrd(bound(T: ::core::cmp::PartialOrd)))]
+pub struct Ty<T>(pub T, pub u8);
+impl<T: PartialEq> PartialEq for Ty<T> { fn eq(&self, o: &Self) -> bool { self.0 == o.0 && self.1 == o.1 } }
+#[cfg_attr(kani, kani::proof)]
+pub fn h() { let x = Ty::<u8>(kani::any(), kani::any()); let y = Ty::<u8>(kani::any(), kani::any()); kani::cover!(true, "reached"); assert!(x.partial_cmp(&y) == (x.0, x.1).partial_cmp(&(y.0, y.1))); }
+'''))
+    G.append(special('Ord(bound(T: Ord)) next to hand-written PartialEq / Eq / PartialOrd', {'Ord'}, '''#[derive(Educe)]
+#[educe(Ord(bound(T: ::core::cmp::Ord)))]
+pub struct Ty<T>(pub T, pub u8);
+impl<T: PartialEq> PartialEq for Ty<T> { fn eq(&self, o: &Self) -> bool { self.0 == o.0 && self.1 == o.1 } }
+impl<T: Eq> Eq for Ty<T> {}
+impl<T: Ord> PartialOrd for Ty<T> { fn partial_cmp(&self, o: &Self) -> Option<Ordering> { Some(Ord::cmp(self, o)) } }
+#[cfg_attr(kani, kani::proof)]
+pub fn h() { let x = Ty::<u8>(kani::any(), kani::any()); let y = Ty::<u8>(kani::any(), kani::any()); kani::cover!(true, "reached"); assert!(Ord::cmp(&x, &y) == (x.0, x.1).cmp(&(y.0, y.1))); }
+'''))
     return G
 
 
@@ -84,7 +131,9 @@ def subsets(tier, seed):
     allbut = [[g for g in F if g != f] for f in F]
     if tier == 'quick':
         k = seed % 12
-        return [singles[k], singles[(k + 5) % 12], singles[(k + 9) % 12], pairs[seed % 4], allbut[(k + 3) % 12]]
+        # two complementary subsets in which every coupled partner (Clone/Copy, PartialEq/Eq, PartialOrd/Ord, Deref/DerefMut) is compiled out are always in
+        partners_off = [['Debug', 'Copy', 'Eq', 'Ord', 'Deref'], ['Clone', 'PartialEq', 'PartialOrd', 'Hash', 'Default', 'Into']]
+        return [singles[k], singles[(k + 5) % 12], pairs[seed % 4], allbut[(k + 3) % 12]] + partners_off
     extra = [sorted(rng.sample(F, rng.randint(2, 7)), key=F.index) for _ in range(4)]
     return singles + pairs + allbut + [list(F)] + extra
 
